@@ -67,10 +67,22 @@ pub fn copy_file_bytes(infd: &File, outfd: &File, bytes: u64) -> Result<usize> {
 /// [copy_file_range](https://man7.org/linux/man-pages/man2/copy_file_range.2.html)
 /// and falls back to user-space if that is not available.
 pub fn copy_file_offset(infd: &File, outfd: &File, bytes: u64, off: i64) -> Result<usize> {
-    let mut off_in = off as u64;
-    let mut off_out = off as u64;
-    try_copy_file_range(infd, Some(&mut off_in), outfd, Some(&mut off_out), bytes)
-        .unwrap_or_else(|| copy_range_uspace(infd, outfd, bytes as usize, off as usize))
+    // The kernel may copy fewer bytes than requested (it always does
+    // above 2GiB - 4KiB per call); repeat until the block is complete
+    // or the source ends.
+    let mut written: u64 = 0;
+    while written < bytes {
+        let pos = off as u64 + written;
+        let mut off_in = pos;
+        let mut off_out = pos;
+        let copied = try_copy_file_range(infd, Some(&mut off_in), outfd, Some(&mut off_out), bytes - written)
+            .unwrap_or_else(|| copy_range_uspace(infd, outfd, (bytes - written) as usize, pos as usize))?;
+        if copied == 0 {
+            break;
+        }
+        written += copied as u64;
+    }
+    Ok(written as usize)
 }
 
 /// Guestimate if file is sparse; if it has less blocks that would be
